@@ -202,6 +202,8 @@ def inverse_identity(check: Check) -> None:
                 undecided.append((where, "normal form differs from y without a numeric difference at the witness"))
         if n == 0:
             raise AnalysisError(f"{name}: no order type enumerated for the inverse")
+        if n_id == 0 and not wrong:
+            raise AnalysisError(f"{name}.tsukamoto: the inverse identity could not be decided at any of the {n} order types ({undecided[0][1] if undecided else 'nothing decided'})")
         check.require(not wrong, "I1", f"{name}.tsukamoto/inverse",
                       f"{name}: membership(tsukamoto(y)) reduces to y at {n_id} of {n} order types (0 < y < height, y against height/2, both directions)"
                       + (f"; undecided at {len(undecided)}" if undecided else "") if not wrong else
